@@ -25,6 +25,35 @@ func init() {
 		// time.After(time.Duration(i) * 50 * time.Millisecond) in receiveRetry
 		v, ok = backoffUnit(x.file(lis), "listener.receiveRetry")
 		defZ(&b, x, "rxBackoffUnit", v, ok, lis+" receiveRetry back-off unit")
+
+		// Advertiser.Run: the error of the initial RA is wrapped with %w (the Dialer must see a system call error behind
+		// it to apply the same policy as to a scheduled RA)
+		wrapped, found := false, false
+		if fd := findFunc(x.file(adv), "Advertiser.Run"); fd != nil && fd.Body != nil {
+			ast.Inspect(fd.Body, func(n ast.Node) bool {
+				c, ok := n.(*ast.CallExpr)
+				if !ok || len(c.Args) < 2 {
+					return true
+				}
+				sel, ok := c.Fun.(*ast.SelectorExpr)
+				if !ok || sel.Sel.Name != "Errorf" {
+					return true
+				}
+				if lit, ok := c.Args[0].(*ast.BasicLit); ok && strings.Contains(lit.Value, "failed to send initial") {
+					found = true
+					wrapped = strings.Contains(lit.Value, "%w")
+				}
+				return true
+			})
+		}
+		if !found {
+			x.warnf("%s: the initial-RA error in Run not found", adv)
+		}
+		if wrapped {
+			b.WriteString("Definition initial_send_error_wrapped : bool := true. (* " + adv + " Run: fmt.Errorf(\"failed to send initial ...: %w\", err) *)\n")
+		} else {
+			b.WriteString("Definition initial_send_error_wrapped : bool := false. (* " + adv + " Run: the initial-RA error is not wrapped with %w *)\n")
+		}
 		return b.String()
 	})
 }
